@@ -13,7 +13,7 @@
 
    cfF = one-off job with the repaired timer branch (the code after the fix: commit),
    cfU = one-off job as found in the pinned tree, cfP = periodic job. *)
-From Verif Require Import Lib.Base Lib.Sched Lib.Reach Model.C02_Scheduler Model.C02_Script Proofs.C02 Proofs.C02_Script Proofs.C02_ScriptExact.
+From Verif Require Import Lib.Base Lib.Sched Lib.Reach Model.C02_Scheduler Model.C02_Script Proofs.C02 Proofs.C02_Script Proofs.C02_ScriptExact Proofs.C02_ScriptMore.
 From Verif Require Import Check.C02 Proofs.C02_Check.
 
 (* never twice: under every schedule jobFunc of a one-off job is called at most once, and at most
@@ -321,6 +321,32 @@ Theorem C02_script_exactly_once_observable :
 Proof. exact script_exactly_once_obs. Qed.
 Print Assumptions C02_script_exactly_once_observable.
 
+(* "an early-run request that reports success means the job runs", for every one-off script:
+   a final state in which some RunJob call returned nil, no context cancellation was issued and
+   jobFunc is not in progress has exactly one start -- whatever else the script did (cancellation
+   requests, further run requests), and whether or not the job's time lies inside the script *)
+Theorem C02_script_run_success_runs :
+  forall sc, sc_kind sc = OneOff -> sc_variant sc = Fixed ->
+  forall t, In t (finals sc) ->
+    (exists i cl, nth_error (sc_calls sc) i = Some cl /\ cl_kind cl = KRun /\ nth_error (t_calls t) i = Some (Ret Nil)) ->
+    no_ret_nil sc KCtx (t_calls t) -> running (t_core t) = 0 ->
+    length (o_starts (outcome_of t)) = 1%nat.
+Proof. exact script_run_success_runs. Qed.
+Print Assumptions C02_script_run_success_runs.
+
+(* "a job cancelled clearly before its time never runs", for every one-off script that ends before
+   the job's time: if a CancelJob call returned nil the job has not run, and NO continuation of
+   the job machine from that final state -- the timer expiring, any number of further run requests,
+   in any order -- ever runs it *)
+Theorem C02_script_cancel_before_due :
+  forall sc, sc_kind sc = OneOff -> sc_variant sc = Fixed -> sc_end sc < sc_due sc ->
+  forall t, In t (finals sc) ->
+    (exists i cl, nth_error (sc_calls sc) i = Some cl /\ cl_kind cl = KCancel /\ nth_error (t_calls t) i = Some (Ret Nil)) ->
+    o_starts (outcome_of t) = []
+    /\ forall sch, runs (run (step cfF) sch (t_core t)) = 0.
+Proof. exact script_cancel_before_due. Qed.
+Print Assumptions C02_script_cancel_before_due.
+
 (* ... and therefore in every OBSERVED outcome that the correspondence check accepts *)
 Theorem C02_checked_observation_never_twice :
   forall c sc os, agree c = true -> c_body c = Timed sc os ->
@@ -343,6 +369,28 @@ Theorem C02_checked_observation_exactly_once :
       length (o_starts (ob_out ob)) = 1%nat.
 Proof. exact checked_exactly_once. Qed.
 Print Assumptions C02_checked_observation_exactly_once.
+
+(* the two clauses above for CHECKED observations *)
+Theorem C02_checked_observation_run_success_runs :
+  forall c sc os, agree c = true -> c_body c = Timed sc os ->
+    sc_kind sc = OneOff -> sc_variant sc = Fixed ->
+    forall ob, In ob os -> ob_running ob = 0 ->
+      (exists i cl, nth_error (sc_calls sc) i = Some cl /\ cl_kind cl = KRun
+                    /\ nth_error (o_calls (ob_out ob)) i = Some (Ret Nil)) ->
+      obs_no_success sc KCtx (o_calls (ob_out ob)) ->
+      length (o_starts (ob_out ob)) = 1%nat.
+Proof. exact checked_run_success. Qed.
+Print Assumptions C02_checked_observation_run_success_runs.
+
+Theorem C02_checked_observation_cancel_before_due :
+  forall c sc os, agree c = true -> c_body c = Timed sc os ->
+    sc_kind sc = OneOff -> sc_variant sc = Fixed -> sc_end sc < sc_due sc ->
+    forall ob, In ob os ->
+      (exists i cl, nth_error (sc_calls sc) i = Some cl /\ cl_kind cl = KCancel
+                    /\ nth_error (o_calls (ob_out ob)) i = Some (Ret Nil)) ->
+      o_starts (ob_out ob) = [].
+Proof. exact checked_cancel_before. Qed.
+Print Assumptions C02_checked_observation_cancel_before_due.
 
 (* ---------------------------------------------------------------------------------------------
    Non-vacuity. *)
@@ -394,3 +442,16 @@ Example C02_tie_script_fixed_and_pinned :
   /\ existsb (fun o => list_eqb cst_eqb (o_calls o) [Ret Nil] && (N.of_nat (length (o_starts o)) =? 0))
              (outcomes (tie_script Pinned)) = true.
 Proof. vm_compute. split; [discriminate | split; reflexivity]. Qed.
+
+(* scripts: a run request one millisecond before the job's time, and a cancellation in a script
+   that ends before the job's time: final states exist and meet the hypotheses of
+   C02_script_run_success_runs / C02_script_cancel_before_due *)
+Example C02_script_examples :
+  let sc_run := {| sc_kind := OneOff; sc_variant := Fixed; sc_due := 5; sc_dur := 2; sc_ticks := 0;
+                   sc_calls := [ {| cl_at := 4; cl_kind := KRun |}; {| cl_at := 4; cl_kind := KCancel |} ]; sc_end := 9 |} in
+  let sc_can := {| sc_kind := OneOff; sc_variant := Fixed; sc_due := 9; sc_dur := 0; sc_ticks := 0;
+                   sc_calls := [ {| cl_at := 3; cl_kind := KCancel |}; {| cl_at := 3; cl_kind := KRun |} ]; sc_end := 6 |} in
+  existsb (fun t => list_eqb cst_eqb (t_calls t) [Ret Nil; Ret ErrNoSuchJob] && (running (t_core t) =? 0)
+                    && list_eqb N.eqb (t_starts t) [4]) (finals sc_run) = true
+  /\ existsb (fun t => list_eqb cst_eqb (t_calls t) [Ret Nil; Ret ErrNoSuchJob] && list_eqb N.eqb (t_starts t) []) (finals sc_can) = true.
+Proof. vm_compute. split; reflexivity. Qed.
